@@ -165,34 +165,8 @@ theorem respond_never_missing (c : Conn) (h : Inv c) (hb : c.broken = false) (i 
 /-- … and a caller that is still waiting when its answer arrives receives it. -/
 theorem respond_reaches_waiting_caller (c : Conn) (h : Inv c) (hb : c.broken = false) (i s r : Nat)
     (hi : c.server[i]? = some (s, r)) (hw : getCaller c.callers r = some .waiting) :
-    getCaller (step c (.respond i)).callers r = some (.delivered (.frame r)) := by
-  have hmem : (s, r) ∈ c.server := List.mem_of_getElem? hi
-  have hq : r ∉ c.sending ∧ r ∉ c.queue ∧ r ∉ c.permits := by
-    have h1 := h.map.reqOnce r
-    have h2 : 0 < (srvReqs c).count r := List.count_pos_iff.mpr (mem_reqs hmem)
-    refine ⟨?_, ?_, ?_⟩ <;> (intro hm; have := List.count_pos_iff.mpr hm; omega)
-  obtain ⟨s', hs'⟩ : ∃ s', c.map.handlers.get s' = some r := by
-    rcases h.callers.tracked r hw with m | m | m | m
-    · exact absurd m hq.1
-    · exact absurd m hq.2.1
-    · exact m
-    · exact absurd m hq.2.2
-  have : s' = s := by
-    have hsrv' := h.map.hSrv s' r hs'
-    -- request ids outstanding at the server are distinct, so the entry of `r` is unique
-    have once := h.map.reqOnce r
-    by_cases e : s' = s
-    · exact e
-    · exfalso
-      have two : 2 ≤ (srvReqs c).count r := two_entries_count e hsrv' hmem
-      omega
-  subst this
-  have hno : s' ∉ c.map.orphans := by
-    intro ho
-    have := (h.map.orphSrv s' ho).2
-    rw [hs'] at this; cases this
-  simp only [step, hb, Bool.false_eq_true, if_false, hi, hlookup_handler hno hs', getCaller_deliver, hw]
-  simp
+    getCaller (step c (.respond i)).callers r = some (.delivered (.frame r)) :=
+  respond_reaches_waiting h hb hi hw
 
 /-- The Rust `assert!(prev_handler.is_none())` in `ResponseHandlerMap::allocate` cannot fire: a freshly
 allocated id has no handler (and is not orphaned). -/
